@@ -30,6 +30,7 @@ row-major order of the index product (a bare cell when every axis addresses one 
 from __future__ import annotations
 
 import contextlib
+import copy as _copy
 import hashlib
 import io
 import itertools
@@ -60,7 +61,10 @@ CLAIM = (
     "out-of-range indices, wrong array counts or an invalid array in multi-cell assignment, bad field names) is tried on one "
     "live object: it must raise, leave copy / independent Vector and the main Vector's schema and metadata untouched and change "
     "nothing outside its own footprint (inside it only old or requested values), and the history continues exactly from the "
-    "observed state. Width dimension: Vectors with 9, 10, 12, 17 and 33 fields (distinct value per column, row and cell), every "
+    "observed state; then the cross-object operations: between main, copy, independent Vector, copy.deepcopy / pickle copies of main "
+    "(used alternately with it), a shallow copy.copy and a kept slice as sources, for every ordered pair with compatible rows and "
+    "for the same and a different field name, dst[f] = src[g] (field view), = src[g].flatten(), dst[f].set_flattened(src[g]), "
+    "dst[f] += src[g], dst[cell] = src[cell], dst.set_data(src.get_data(..)): dst holds src's current values, everything else is unchanged. Width dimension: Vectors with 9, 10, 12, 17 and 33 fields (distinct value per column, row and cell), every "
     "removal of 1, 2, n-2, n-1 fields and of all-but-K for families of small K incl. survivors of index >= 8, add_fields, field "
     "set / arithmetic / get by name, copy, as roots of depth 1-2, the names given sorted, reversed and in two fixed shuffles and "
     "as str / list / tuple / set / dict keys. Global-mode dimension: from six initial states (float, int64, uint8 and bool cells) "
@@ -1563,6 +1567,145 @@ def after_refusals(blob, M, share, hist, EV, seed, spec, t, counts):
         t.n += 1
 
 
+# ----------------------------------------------------------------------------- cross-object operations
+def check_obj(who, vec, m):
+    shape, fields, units, cells, meta = read_one(vec, m)
+    if view_bytes(shape, fields, units, cells, meta) == model_bytes(m):
+        return None
+    return diff_one(who, vec, m) or ("state_equals_model", f"{who}: canonical bytes differ from the model")
+
+
+def cross_objects(blob, M, share, hist, spec, seed, t, counts, full=True):
+    """Legal operations that move data BETWEEN the objects of a state, chained on one live state: main, copy,
+    independent, kept slice (as a source for objects that share nothing with it), plus copy.deepcopy(main), a pickle
+    round trip of main (first made different from main by in-place arithmetic, then used alternately with it) and
+    copy.copy(main) (a Python shallow copy: shares everything with main by language semantics, used as a source only).
+    For every ordered pair (dst, src) with compatible row structure and for the same and for a different field name:
+    dst[f] = src[g] (a field view on the right), dst[f] = src[g].flatten(), dst[f].set_flattened(src[g]),
+    dst[f] += src[g] (where one populated cell makes a view operand legal), and at the end dst[cell] = src[cell] and
+    dst.set_data(src.get_data(*cell), *cell). Model: dst's column / cell holds src's current values, src and every
+    other object unchanged. dst and src are compared after every operation, all objects at the end."""
+    case0 = {"init": list(spec), "history": [list(e) for e in hist], "cross": True}
+    where = f"init {spec!r} after {[tuple(e) for e in hist]!r}"
+
+    def fresh():
+        S = load(blob, M, None)
+        objs = {"main": [S.v, S.mv], "independent": [S.w, S.mw]}
+        if S.c is not None:
+            objs["copy"] = [S.c, S.mc]
+        objs["deepcopy"] = [_copy.deepcopy(S.v), S.mv.clone()]
+        objs["pickle"] = [pickle.loads(pickle.dumps(S.v)), S.mv.clone()]
+        src_only = {"shallow_copy": [_copy.copy(S.v), S.mv]}  # alias of main: its model IS main's model
+        if S.s is not None:
+            src_only["slice"] = [S.s, S.ms]
+        # make the two deep copies differ from main (and from each other) before they are used alternately with it
+        for who, k in (("deepcopy", 11), ("pickle", 13)):
+            vec, m = objs[who]
+            for fi, f in enumerate(m.fields):
+                vec[f] += k + fi
+                m.arith(fi, "add", k + fi)
+        return S, objs, src_only
+
+    def plan(objs, src_only):
+        names = list(objs)
+        # a kept slice shares its arrays with main (by design): it is only a reliable source BEFORE main is written in
+        # place, so its pairs come first and it is not used for the cell spellings at the end of the chain
+        pairs = [(d, s_) for d in ("deepcopy", "pickle") for s_ in src_only]
+        pairs += [(d, s_) for d in names for s_ in names if d != s_]
+        if not full:
+            keep = {("main", "deepcopy"), ("deepcopy", "main"), ("main", "copy"), ("copy", "main"), ("pickle", "deepcopy"), ("pickle", "shallow_copy"), ("independent", "main"), ("deepcopy", "slice")}
+            pairs = [p_ for p_ in pairs if p_ in keep]
+        ops = []
+        for d, s_ in pairs:
+            for same in (True, False):
+                for kind in ("assign_view", "assign_flatten", "set_flattened_view", "iadd_view"):
+                    ops.append((kind, d, s_, same))
+        for d, s_ in pairs:
+            if s_ != "slice":
+                ops += [("assign_cell", d, s_, True), ("set_data_from_get_data", d, s_, True)]
+        return ops
+
+    S, objs, src_only = fresh()
+    done = []
+    for op in plan(objs, src_only):
+        kind, d, s_, same = op
+        dv, dm = objs[d]
+        sv, sm = (objs.get(s_) or src_only[s_])
+        problem = None
+        try:
+            if kind in ("assign_cell", "set_data_from_get_data"):
+                if dm.shape != sm.shape or dm.nf != sm.nf:
+                    continue
+                cell = next((c for c, a in sm.populated()), None)
+                if cell is None:
+                    continue
+                if kind == "assign_cell":
+                    dv[cell_idx(cell)] = sv[cell_idx(cell)]
+                else:
+                    dv.set_data(sv.get_data(*cell), *cell)
+                dm.put(cell, sm.get(cell))
+                f = g = None
+            else:
+                if dm.total_rows() != sm.total_rows() or dm.total_rows() == 0:
+                    continue
+                if same:
+                    common = [x for x in dm.fields if x in sm.fields]
+                    if not common:
+                        continue
+                    f = g = common[0]
+                else:
+                    f = dm.fields[0]
+                    g = next((x for x in reversed(sm.fields) if x != f), None)
+                    if g is None:
+                        continue
+                fi, gi = dm.fields.index(f), sm.fields.index(g)
+                if kind == "iadd_view":
+                    pop = dm.populated()
+                    if len(pop) != 1 or pop[0][1].shape[0] != sm.total_rows():
+                        continue  # a whole-column operand only fits when dst has exactly one populated cell
+                    operand = sm.column(gi)
+                    dv[f] += sv[g]
+                    dm.set_flat(fi, dm.column(fi) + operand)
+                else:
+                    if np.array_equal(dm.column(fi), sm.column(gi)):  # nothing to see if they already agree
+                        dv[f] += 7
+                        dm.arith(fi, "add", 7)
+                    col = sm.column(gi)
+                    if kind == "assign_view":
+                        dv[f] = sv[g]
+                    elif kind == "assign_flatten":
+                        dv[f] = sv[g].flatten()
+                    else:
+                        dv[f].set_flattened(sv[g])
+                    dm.set_flat(fi, col)
+            dm.touch()
+            problem = check_obj(d, dv, dm) or (check_obj(s_, sv, sm) if s_ not in ("shallow_copy",) or d != "main" else None)
+            if problem is None and d == "main" and "shallow_copy" in src_only:
+                pass  # the shallow copy follows main by language semantics; not judged
+        except (Broken, AssertionError):
+            raise
+        except Exception as e:
+            problem = ("legitimate_operation_raised", f"raised {type(e).__name__}: {str(e)[:120]}")
+        counts["transitions"] += 1
+        counts["ev_cross_" + kind] += 1
+        t.n += 1
+        done.append([kind, d, s_, "same_field_name" if same else "different_field_name"])
+        if problem:
+            cls = {"relation": "cross_object_operation_equals_model" if problem[0] != "legitimate_operation_raised" else problem[0], "event": "cross", "op": kind, "dst": d, "src": s_, "same_field_name": bool(same), "ndim": len(S.mv.shape)}
+            t.fail(cls, dict(case0, ops=list(done)), f"{where}: {kind} dst={d} src={s_} ({'same' if same else 'different'} field name{'' if f is None else f', dst[{f!r}] <- src[{g!r}]'}): {problem[1]}")
+            S, objs, src_only = fresh()
+            done = []
+    # everything else untouched: the state's own objects against their models, the extra objects against theirs
+    fl = []
+    S.mv, S.mw = objs["main"][1], objs["independent"][1]
+    if "copy" in objs:
+        S.mc = objs["copy"][1]
+    S.drop_slice()  # cells handed from object to object by dst[cell] = src[cell] are shared by design of that spelling
+    compare(S, None, fl)
+    for rel, msg, who in fl:
+        t.fail({"relation": "cross_object_operation_leaves_others_untouched", "event": "cross", "object": who, "ndim": len(S.mv.shape)}, dict(case0, ops=list(done)), f"{where}: after the cross-object operations {done[-3:]}: {msg}")
+
+
 def expand_one(blob, M, share, hist, EV, seed, spec, t, counts, last=False):
     """Every enabled event from one live state (given as a pickle + models). Yields (ei, S2, key, sharing) for the
     transitions whose result agrees with the model; failures are recorded on t and not yielded."""
@@ -1580,6 +1723,7 @@ def expand_one(blob, M, share, hist, EV, seed, spec, t, counts, last=False):
         if good:
             yield ei, S2, k2, sh2
     after_refusals(blob, M, share, hist, EV, seed, spec, t, counts)
+    cross_objects(blob, M, share, hist, spec, seed, t, counts, full=len(hist) <= 1)
 
 
 def shard_a(item, seed=0, full_depth1=True):
@@ -2328,7 +2472,7 @@ def run(ctx):
     never = [k for k in kinds if ex.get("ev_" + k, 0) == 0]
     if never:
         raise Broken(f"events never enabled anywhere: {never}")
-    for k in ("obs_slice", "obs_get_data", "obs_flatten", "obs_field_flatten", "obs_roundtrip", "ev_refused", "ev_follow_after_refused", "kept_flatten_checks"):
+    for k in ("ev_cross_assign_view", "ev_cross_assign_flatten", "ev_cross_set_flattened_view", "ev_cross_assign_cell", "obs_slice", "obs_get_data", "obs_flatten", "obs_field_flatten", "obs_roundtrip", "ev_refused", "ev_follow_after_refused", "kept_flatten_checks"):
         if ex.get(k, 0) == 0:
             raise Broken(f"observer {k} never ran")
 
@@ -2366,7 +2510,11 @@ def replay(ctx, case):
         return
     S, key, share, ok = run_history(spec, hist, ctx.seed, t, t.extra, stop_on_fail=True)
     print(f"  init {spec!r}, history {hist!r}")
-    if ok and ("refusal" in case or "refusals_before" in case):
+    if ok and case.get("cross"):
+        print("  then the cross-object operations of that state")
+        cross_objects(dump(S), frozen_models(S), share, hist, spec, ctx.seed, t, t.extra, full=True)
+        cross_objects(dump(S), frozen_models(S), share, hist, spec, ctx.seed, t, t.extra, full=False)
+    elif ok and ("refusal" in case or "refusals_before" in case):
         # the refused operations of that state on one live object, then the observers and one legal event
         print(f"  then the refused operations of that state" + (f" (recorded: {case['refusal']})" if "refusal" in case else ""))
         after_refusals(dump(S), S.models(), share, hist, events_for(shape_of(spec)), ctx.seed, spec, t, t.extra)
